@@ -65,7 +65,7 @@ class SimpleBlock(Block):
                 else:
                     input_args[k] = Displace(np.full(inputs.T, ss[k]), ss[k], ss_initial[k], k)
 
-        return ImpulseDict(make_impulse_uniform_length(self.f(input_args)))[outputs] - ss
+        return ImpulseDict(make_impulse_uniform_length(self.f(input_args), inputs.T))[outputs] - ss
 
     def _impulse_linear(self, ss, inputs, outputs, Js):
         return ImpulseDict(self.jacobian(ss, list(inputs.keys()), outputs, inputs.T, Js).apply(inputs))
@@ -102,7 +102,8 @@ class SimpleBlock(Block):
 
 
 # TODO: move this to impulse.py?
-def make_impulse_uniform_length(out):
-    T = np.max([np.size(v) for v in out.values()])
+def make_impulse_uniform_length(out, T=None):
+    if T is None:
+        T = np.max([np.size(v) for v in out.values()])
     return {k: (np.full(T, misc.numeric_primitive(v)) if np.isscalar(v) else misc.numeric_primitive(v))
                                                         for k, v in out.items()}
